@@ -88,7 +88,12 @@ class DiagLinearOperator(TriangularLinearOperator):
         self: Float[LinearOperator, "... #M #N"],
         other: Union[Float[torch.Tensor, "... #M #N"], Float[LinearOperator, "... #M #N"]],
     ) -> Float[LinearOperator, "... M N"]:
-        return DiagLinearOperator(self._diag * other._diagonal())
+        if other.shape[-2:] != self.shape[-2:]:
+            # other broadcasts along its rows and / or columns: its diagonal is that of the broadcast matrix
+            other_diag = other.to_dense().expand(*other.shape[:-2], *self.shape[-2:]).diagonal(dim1=-1, dim2=-2)
+        else:
+            other_diag = other._diagonal()
+        return DiagLinearOperator(self._diag * other_diag)
 
     def _prod_batch(self, dim: int) -> LinearOperator:
         return self.__class__(self._diag.prod(dim))
